@@ -517,7 +517,7 @@ func runC17(c *fw.Ctx) {
 			}
 		}
 	}
-	n := c.N(100000, 2500000)
+	n := c.N(100000, 1000000)
 	for i := 0; i < n; i++ {
 		id := "edit/" + itoa(i)
 		if !c.Want(i, id) {
